@@ -21,13 +21,16 @@ def goErrByName : String → Option GoErr
   | "S8" => some (.stackOverflow 8)
   | "E9" => some (.plain 9)
   | "WS12" => some (.wrap 12 (.stackOverflow 8))
+  | "X14" => some (.customIs 14 1)                    -- Is(E1) = true
+  | "WX15" => some (.wrap 15 (.customIs 14 1))
+  | "A16" => some (.customAs 16 2)                    -- As(&*CustomErr) gives C2
   | _ => none
 
-def targets : List Nat := [1, 2, 3, 4, 5, 6, 7, 8, 9, 12]
+def targets : List Nat := [1, 2, 3, 4, 5, 6, 7, 8, 9, 12, 14, 15, 16]
 
 def idName : Nat → String
   | 1 => "E1" | 2 => "C2" | 3 => "W3" | 4 => "J4" | 5 => "I5" | 6 => "WI6" | 7 => "JI7" | 8 => "S8" | 9 => "E9"
-  | 12 => "WS12" | n => "?id" ++ toString n
+  | 12 => "WS12" | 14 => "X14" | 15 => "WX15" | 16 => "A16" | n => "?id" ++ toString n
 
 def clsName : ErrClass → String
   | .error => "Error" | .typeError => "TypeError" | .referenceError => "ReferenceError"
@@ -79,8 +82,8 @@ def pvName : Pv → String
 
 def topName : StackTop → String
   | .thrower => "T"
-  | .rethrow false => "RJR"
-  | .rethrow true => "RJRF"
+  | .rethrow i => "R" ++ toString i
+  | .creation => "C"
   | _ => "o"
 
 def parseFrame : String → Option Frame
@@ -91,6 +94,7 @@ def parseFrame : String → Option Frame
   | "FO" => some .fo | "DY" => some .dy | "RP" => some .rp | "PR" => some .pr
   | "FCV" => some .fcv | "RFW" => some .rfw | "JI" => some .ji | "JG" => some .jg | "JGF" => some .jgf
   | "JA" => some .ja | "JAW" => some .jaw | "FOT" => some .fot
+  | "JIT" => some .jit | "JY" => some .jy | "JYF" => some .jyf | "FCS" => some .fcs
   | _ => none
 
 def parseChain (s : String) : Option (List Frame) :=
